@@ -48,6 +48,7 @@ type calleeDecl struct {
 	Body *ast.BlockStmt
 	Recv *ast.FieldList
 	Lit  *ast.FuncLit
+	Def  *ast.AssignStmt // the `name := func…` statement of a local closure
 	Sig  *types.Signature
 }
 
@@ -75,7 +76,7 @@ func localClosures(p *packages.Package, fd *ast.FuncDecl) map[types.Object]*call
 		if sig == nil {
 			return true
 		}
-		out[obj] = &calleeDecl{Name: id, Type: lit.Type, Body: lit.Body, Lit: lit, Sig: sig}
+		out[obj] = &calleeDecl{Name: id, Type: lit.Type, Body: lit.Body, Lit: lit, Def: as, Sig: sig}
 		return true
 	})
 	if len(out) == 0 {
@@ -114,6 +115,9 @@ func localClosures(p *packages.Package, fd *ast.FuncDecl) map[types.Object]*call
 	return out
 }
 
+// expandCounter numbers the temporaries of all expansions of a process.
+var expandCounter int
+
 type edit struct {
 	start, end int
 	text       string
@@ -139,7 +143,6 @@ func Reinline(pkgs []*packages.Package, isNew func(*types.Func) bool, read func(
 			}
 		}
 	}
-	counter := 0
 	for _, p := range pkgs {
 		for _, f := range p.Syntax {
 			fname := p.Fset.Position(f.Pos()).Filename
@@ -216,8 +219,8 @@ func Reinline(pkgs []*packages.Package, isNew func(*types.Func) bool, read func(
 				if encl == nil {
 					continue
 				}
-				counter++
-				ed, imps, note := expand(p, f, src, s, counter, read)
+				expandCounter++
+				ed, imps, note := expand(p, f, src, s, expandCounter, read)
 				if ed == nil {
 					notes = append(notes, fmt.Sprintf("new helper %s: call at %s left as is (%s)", s.fn.Name(), p.Fset.Position(s.call.Pos()), note))
 					continue
@@ -241,11 +244,12 @@ func Reinline(pkgs []*packages.Package, isNew func(*types.Func) bool, read func(
 					notes = append(notes, fmt.Sprintf("new helper %s expanded at its call in %s (%s)", s.fn.Name(), encl.Name.Name, shortPos(p.Fset.Position(s.call.Pos()))))
 				}
 			}
-			// a closure all of whose calls were expanded is no longer used: keep it compiling
+			// a closure all of whose calls were expanded is no longer used
 			for obj, n := range closureUses {
 				if closureDone[obj] == n {
-					end := p.Fset.Position(closureDecl[obj].Lit.End()).Offset
-					edits = append(edits, edit{end, end, "; _ = " + obj.Name()})
+					// remove the definition: the variables it captured become plain locals again
+					d := closureDecl[obj].Def
+					edits = append(edits, edit{p.Fset.Position(d.Pos()).Offset, p.Fset.Position(d.End()).Offset, ""})
 				}
 			}
 			if len(edits) == 0 {
@@ -341,22 +345,51 @@ func expand(p *packages.Package, f *ast.File, src []byte, s inlineSite, n int, r
 	if sig.Variadic() {
 		return nil, nil, "variadic"
 	}
+	// named results become local variables of the expansion
+	var resultNames []string
+	namedResults := false
 	if callee.Type.Results != nil {
 		for _, r := range callee.Type.Results.List {
-			if len(r.Names) > 0 {
-				return nil, nil, "named results"
+			for _, nm := range r.Names {
+				namedResults = true
+				resultNames = append(resultNames, nm.Name)
 			}
+		}
+		if namedResults && len(resultNames) != sig.Results().Len() {
+			return nil, nil, "partly named results"
 		}
 	}
 	// callee body restrictions
 	bad := ""
 	var returns []*ast.ReturnStmt
+	var defers []*ast.DeferStmt
+	topLevel := map[ast.Stmt]bool{}
+	for _, st := range callee.Body.List {
+		topLevel[st] = true
+	}
 	ast.Inspect(callee.Body, func(nn ast.Node) bool {
 		switch x := nn.(type) {
 		case *ast.FuncLit:
 			return false
 		case *ast.DeferStmt:
-			bad = "defer in helper"
+			// only `defer recv.Method()` / `defer fn()` without arguments, as a top-level statement
+			okDefer := topLevel[x] && len(x.Call.Args) == 0
+			switch fun := x.Call.Fun.(type) {
+			case *ast.Ident:
+			case *ast.SelectorExpr:
+				if hasCallOrRecv(fun.X) {
+					okDefer = false
+				}
+			default:
+				okDefer = false
+			}
+			if !okDefer {
+				bad = "defer in helper (not a plain top-level `defer x.M()`)"
+			}
+			defers = append(defers, x)
+			return false
+		case *ast.GoStmt:
+			bad = "go statement in helper"
 		case *ast.CallExpr:
 			if id, ok := x.Fun.(*ast.Ident); ok && id.Name == "recover" {
 				bad = "recover in helper"
@@ -367,8 +400,6 @@ func expand(p *packages.Package, f *ast.File, src []byte, s inlineSite, n int, r
 			if sel, ok := x.Fun.(*ast.SelectorExpr); ok && p.TypesInfo.Uses[sel.Sel] == s.fn {
 				bad = "recursive helper"
 			}
-		case *ast.GoStmt:
-			bad = "go statement in helper"
 		case *ast.ReturnStmt:
 			returns = append(returns, x)
 		case *ast.LabeledStmt:
@@ -395,6 +426,9 @@ func expand(p *packages.Package, f *ast.File, src []byte, s inlineSite, n int, r
 	path, _ := astutil.PathEnclosingInterval(f, s.call.Pos(), s.call.End())
 	var stmt ast.Stmt
 	for i, nd := range path {
+		if _, isFn := nd.(*ast.FuncLit); isFn {
+			break
+		}
 		st, ok := nd.(ast.Stmt)
 		if !ok {
 			continue
@@ -408,16 +442,13 @@ func expand(p *packages.Package, f *ast.File, src []byte, s inlineSite, n int, r
 		if stmt != nil {
 			break
 		}
-		if _, isFn := nd.(*ast.FuncLit); isFn {
-			break
-		}
 	}
 	if stmt == nil {
 		return nil, nil, "call is not inside a plain statement"
 	}
 
 	// pure expression helper: body is `return expr`, args are simple
-	if len(callee.Body.List) == 1 && len(returns) == 1 && len(returns[0].Results) == 1 {
+	if len(callee.Body.List) == 1 && len(returns) == 1 && len(returns[0].Results) == 1 && len(defers) == 0 {
 		simple := true
 		for _, a := range s.call.Args {
 			if hasCallOrRecv(a) {
@@ -434,122 +465,215 @@ func expand(p *packages.Package, f *ast.File, src []byte, s inlineSite, n int, r
 		}
 	}
 
-	// where is the call inside the statement?
-	replaceIn := func(node ast.Node, repl string) string {
-		return text(node.Pos(), s.call.Pos()) + repl + text(s.call.End(), node.End())
-	}
 	nres := sig.Results().Len()
 	var resNames []string
 	for i := 0; i < nres; i++ {
 		resNames = append(resNames, fmt.Sprintf("_ir%d_%d", n, i))
 	}
 	resList := strings.Join(resNames, ", ")
-	var sPrime string
-	var preInit string // statements that must run before the expansion (an if's Init when the call is in Cond)
-	// `return helper(…)`: the helper's returns become the caller's returns, no temporaries needed
-	tail := false
-	if rs, ok := stmt.(*ast.ReturnStmt); ok && len(rs.Results) == 1 && rs.Results[0] == ast.Expr(s.call) && nres > 0 {
-		tail = true
-	}
+
+	// Where in the statement is the call evaluated? `region` is the part of the statement whose
+	// evaluation contains the call; calls that are evaluated before it are hoisted too.
+	var region ast.Node
+	var preInit string // an if's Init when the call is in Cond
+	tail := false      // `return helper(…)`
+	dropStmt := false  // the statement is just the call
 	switch st := stmt.(type) {
 	case *ast.ExprStmt:
-		if st.X != ast.Expr(s.call) {
-			return nil, nil, "call is a sub-expression"
+		region = st
+		if st.X == ast.Expr(s.call) {
+			dropStmt = true
 		}
-		sPrime = ""
-		if nres > 0 {
-			sPrime = strings.Repeat("_, ", nres-1) + "_ = " + resList
-		}
-	case *ast.AssignStmt:
-		if len(st.Rhs) != 1 || st.Rhs[0] != ast.Expr(s.call) {
-			return nil, nil, "call is not the whole right-hand side"
-		}
-		sPrime = replaceIn(st, resList)
+	case *ast.AssignStmt, *ast.SendStmt, *ast.IncDecStmt:
+		region = st
 	case *ast.ReturnStmt:
-		ok := false
-		for _, r := range st.Results {
-			if r == ast.Expr(s.call) {
-				ok = true
-			} else if hasCallOrRecv(r) {
-				return nil, nil, "other calls in the return"
-			}
+		region = st
+		if len(st.Results) == 1 && st.Results[0] == ast.Expr(s.call) && nres > 0 && len(defers) == 0 && !namedResults {
+			tail = true
 		}
-		if !ok {
-			return nil, nil, "call is a sub-expression of a return operand"
-		}
-		sPrime = replaceIn(st, resList)
 	case *ast.IfStmt:
 		inInit := st.Init != nil && st.Init.Pos() <= s.call.Pos() && s.call.End() <= st.Init.End()
 		inCond := st.Cond.Pos() <= s.call.Pos() && s.call.End() <= st.Cond.End()
 		switch {
 		case inInit:
-			switch in := st.Init.(type) {
-			case *ast.AssignStmt:
-				if len(in.Rhs) != 1 || in.Rhs[0] != ast.Expr(s.call) {
-					return nil, nil, "call is not the whole right-hand side of the if-init"
-				}
-			case *ast.ExprStmt:
-				if in.X != ast.Expr(s.call) {
-					return nil, nil, "call is a sub-expression of the if-init"
-				}
-			default:
-				return nil, nil, "unsupported if-init"
-			}
-			sPrime = replaceIn(st, resList)
+			region = st.Init
 		case inCond:
-			c := st.Cond
-			for {
-				if pe, ok := c.(*ast.ParenExpr); ok {
-					c = pe.X
-					continue
-				}
-				if u, ok := c.(*ast.UnaryExpr); ok && u.Op == token.NOT {
-					c = u.X
-					continue
-				}
-				break
-			}
-			leftmost := c == ast.Expr(s.call)
-			if b, ok := c.(*ast.BinaryExpr); ok {
-				l := b.X
-				for {
-					if pe, ok := l.(*ast.ParenExpr); ok {
-						l = pe.X
-						continue
-					}
-					if u, ok := l.(*ast.UnaryExpr); ok && u.Op == token.NOT {
-						l = u.X
-						continue
-					}
-					break
-				}
-				if l == ast.Expr(s.call) && (b.Op == token.EQL || b.Op == token.NEQ || b.Op == token.LSS || b.Op == token.GTR || b.Op == token.LEQ || b.Op == token.GEQ) && !hasCallOrRecv(b.Y) {
-					leftmost = true
-				}
-			}
-			if !leftmost || nres != 1 {
-				return nil, nil, "call is not evaluated first in the condition"
-			}
+			region = st.Cond
 			if st.Init != nil {
 				preInit = text(st.Init.Pos(), st.Init.End())
-				sPrime = "if " + text(st.Cond.Pos(), s.call.Pos()) + resList + text(s.call.End(), st.End())
-			} else {
-				sPrime = replaceIn(st, resList)
 			}
 		default:
 			return nil, nil, "call inside the if body is handled by its own statement"
 		}
 	case *ast.RangeStmt:
-		if st.X != ast.Expr(s.call) {
-			return nil, nil, "call is not the ranged expression"
+		if !(st.X.Pos() <= s.call.Pos() && s.call.End() <= st.X.End()) {
+			return nil, nil, "call is not in the ranged expression"
 		}
-		sPrime = replaceIn(st, resList)
+		region = st.X
 	default:
 		return nil, nil, fmt.Sprintf("unsupported statement %T", stmt)
 	}
-
-	// name capture: package-level names used by the helper must mean the same at the call site
+	// not under the right operand of && / ||, not inside a function literal
+	{
+		rpath, _ := astutil.PathEnclosingInterval(f, s.call.Pos(), s.call.End())
+		for i, nd := range rpath {
+			if nd == region {
+				break
+			}
+			if be, ok := nd.(*ast.BinaryExpr); ok && (be.Op == token.LAND || be.Op == token.LOR) && i > 0 {
+				if be.Y.Pos() <= s.call.Pos() && s.call.End() <= be.Y.End() {
+					return nil, nil, "call is evaluated conditionally (right operand of && / ||)"
+				}
+			}
+			if _, ok := nd.(*ast.FuncLit); ok {
+				return nil, nil, "call is inside a function literal"
+			}
+		}
+	}
+	// calls evaluated before the helper call inside the region (outermost, lexically before)
+	type hoist struct {
+		call *ast.CallExpr
+		name string
+		typ  string
+	}
+	var hoists []hoist
 	var imps [][2]string
+	hoistBad := ""
+	if !dropStmt && !tail {
+		var visit func(nd ast.Node, conditional bool)
+		visit = func(nd ast.Node, conditional bool) {
+			ast.Inspect(nd, func(x ast.Node) bool {
+				if x == nil || hoistBad != "" {
+					return false
+				}
+				switch y := x.(type) {
+				case *ast.FuncLit:
+					return false
+				case *ast.BinaryExpr:
+					if y.Op == token.LAND || y.Op == token.LOR {
+						visit(y.X, conditional)
+						if y.Y.End() <= s.call.Pos() {
+							// a conditionally evaluated call before the helper call
+							if hasCallOrRecv(y.Y) {
+								hoistBad = "a conditionally evaluated call precedes the helper call"
+							}
+						} else {
+							visit(y.Y, true)
+						}
+						return false
+					}
+				case *ast.UnaryExpr:
+					if y.Op == token.ARROW && y.End() <= s.call.Pos() {
+						hoistBad = "a channel receive precedes the helper call"
+					}
+				case *ast.CallExpr:
+					if y == s.call {
+						return false
+					}
+					if y.End() <= s.call.Pos() {
+						if tv, ok := p.TypesInfo.Types[y.Fun]; ok && tv.IsType() {
+							return true // a conversion: look inside
+						}
+						if id, ok := y.Fun.(*ast.Ident); ok {
+							if _, isB := p.TypesInfo.Uses[id].(*types.Builtin); isB && (id.Name == "len" || id.Name == "cap") && !hasCallOrRecv(y.Args[0]) {
+								return false // pure
+							}
+						}
+						t := p.TypesInfo.TypeOf(y)
+						if t == nil {
+							hoistBad = "untyped call before the helper call"
+							return false
+						}
+						if _, isTuple := t.(*types.Tuple); isTuple {
+							hoistBad = "a multi-value call precedes the helper call"
+							return false
+						}
+						ts, more, ok := typeText(p, f, t)
+						if !ok {
+							hoistBad = "type of an earlier call not expressible"
+							return false
+						}
+						imps = append(imps, more...)
+						hoists = append(hoists, hoist{y, fmt.Sprintf("_ih%d_%d", n, len(hoists)), ts})
+						return false
+					}
+				}
+				return true
+			})
+		}
+		visit(region, false)
+	}
+	if hoistBad != "" {
+		return nil, nil, hoistBad
+	}
+	// the statement with the call (and hoisted calls) replaced
+	rewrite := func(a, b token.Pos) string {
+		type rp struct {
+			a, b int
+			t    string
+		}
+		rps := []rp{{off(s.call.Pos()), off(s.call.End()), resList}}
+		for _, h := range hoists {
+			rps = append(rps, rp{off(h.call.Pos()), off(h.call.End()), h.name})
+		}
+		sort.Slice(rps, func(i, j int) bool { return rps[i].a > rps[j].a })
+		out := string(src[off(a):off(b)])
+		base := off(a)
+		for _, r := range rps {
+			if r.a < base || r.b > off(b) {
+				continue
+			}
+			out = out[:r.a-base] + r.t + out[r.b-base:]
+		}
+		return out
+	}
+	var sPrime string
+	switch st := stmt.(type) {
+	case *ast.ExprStmt:
+		if dropStmt {
+			if nres > 0 {
+				sPrime = strings.Repeat("_, ", nres-1) + "_ = " + resList
+			}
+		} else {
+			if nres != 1 {
+				return nil, nil, "multi-value call as a sub-expression"
+			}
+			sPrime = rewrite(st.Pos(), st.End())
+		}
+	case *ast.IfStmt:
+		if region == ast.Node(st.Cond) {
+			if nres != 1 {
+				return nil, nil, "multi-value call in a condition"
+			}
+			sPrime = "if " + rewrite(st.Cond.Pos(), st.End())
+		} else {
+			sPrime = rewrite(st.Pos(), st.End())
+		}
+	default:
+		sPrime = rewrite(stmt.Pos(), stmt.End())
+	}
+	if !dropStmt && !tail {
+		// a multi-value helper call must be the whole right-hand side / the whole return list
+		if nres != 1 {
+			okWhole := false
+			switch st := stmt.(type) {
+			case *ast.AssignStmt:
+				okWhole = len(st.Rhs) == 1 && st.Rhs[0] == ast.Expr(s.call)
+			case *ast.ReturnStmt:
+				okWhole = len(st.Results) == 1 && st.Results[0] == ast.Expr(s.call)
+			case *ast.IfStmt:
+				if as, ok := st.Init.(*ast.AssignStmt); ok && region == ast.Node(st.Init) {
+					okWhole = len(as.Rhs) == 1 && as.Rhs[0] == ast.Expr(s.call)
+				}
+			}
+			if !okWhole {
+				return nil, nil, "multi-value (or void) call as a sub-expression"
+			}
+		}
+	}
+
+	// name capture: names used by the helper that are declared outside it must mean the same at
+	// the call site
 	scope := p.Types.Scope().Innermost(s.call.Pos())
 	captured := ""
 	selIdents := map[*ast.Ident]bool{}
@@ -559,6 +683,13 @@ func expand(p *packages.Package, f *ast.File, src []byte, s inlineSite, n int, r
 		}
 		return true
 	})
+	declStart := callee.Type.Pos()
+	if callee.Recv != nil {
+		declStart = callee.Recv.Pos()
+	}
+	if callee.Lit != nil {
+		declStart = callee.Lit.Pos()
+	}
 	ast.Inspect(callee.Body, func(nn ast.Node) bool {
 		id, ok := nn.(*ast.Ident)
 		if !ok || selIdents[id] {
@@ -569,7 +700,6 @@ func expand(p *packages.Package, f *ast.File, src []byte, s inlineSite, n int, r
 			return true
 		}
 		if pn, ok := obj.(*types.PkgName); ok {
-			// the caller's file must import the same package under this name
 			found := false
 			for _, im := range f.Imports {
 				path := strings.Trim(im.Path.Value, `"`)
@@ -588,14 +718,15 @@ func expand(p *packages.Package, f *ast.File, src []byte, s inlineSite, n int, r
 			if !found && captured == "" {
 				imps = append(imps, [2]string{pn.Name(), pn.Imported().Path()})
 			}
+			// the package name itself must not be shadowed at the call site
+			if scope != nil {
+				if _, o2 := scope.LookupParent(id.Name, s.call.Pos()); o2 != nil {
+					if _, isPkg := o2.(*types.PkgName); !isPkg {
+						captured = "package name " + id.Name + " is shadowed at the call site"
+					}
+				}
+			}
 			return true
-		}
-		declStart := callee.Type.Pos()
-		if callee.Recv != nil {
-			declStart = callee.Recv.Pos()
-		}
-		if callee.Lit != nil {
-			declStart = callee.Lit.Pos()
 		}
 		inside := obj.Pos().IsValid() && declStart <= obj.Pos() && obj.Pos() <= callee.Body.End()
 		if obj.Parent() != nil && !inside {
@@ -615,6 +746,9 @@ func expand(p *packages.Package, f *ast.File, src []byte, s inlineSite, n int, r
 	b.WriteString("{\n")
 	if preInit != "" {
 		b.WriteString(preInit + "\n")
+	}
+	for _, h := range hoists {
+		b.WriteString("var " + h.name + " " + h.typ + " = " + text(h.call.Pos(), h.call.End()) + "\n")
 	}
 	// arguments
 	type bind struct{ name, tmp string }
@@ -659,7 +793,6 @@ func expand(p *packages.Package, f *ast.File, src []byte, s inlineSite, n int, r
 			}
 			tmp := fmt.Sprintf("_ia%d_%d", n, k)
 			k++
-			// typed declaration keeps untyped constants and nil assignable
 			pt := sig.Params().At(ai).Type()
 			ts, more, ok := typeText(p, f, pt)
 			if !ok {
@@ -683,59 +816,104 @@ func expand(p *packages.Package, f *ast.File, src []byte, s inlineSite, n int, r
 		b.WriteString("\n}\n")
 		return &edit{off(stmt.Pos()), off(stmt.End()), b.String()}, imps, ""
 	}
+	var resTypes []string
 	for i := 0; i < nres; i++ {
 		ts, more, ok := typeText(p, f, sig.Results().At(i).Type())
 		if !ok {
 			return nil, nil, "result type not expressible at the call site"
 		}
 		imps = append(imps, more...)
+		resTypes = append(resTypes, ts)
 		b.WriteString("var " + resNames[i] + " " + ts + "\n")
 	}
 	label := fmt.Sprintf("_il%d", n)
-	if len(returns) > 0 {
+	needLabel := len(returns) > 0
+	if needLabel {
 		b.WriteString(label + ":\n")
 	}
 	b.WriteString("for {\n")
 	for _, bd := range binds {
 		b.WriteString(bd.name + " := " + bd.tmp + "\n_ = " + bd.name + "\n")
 	}
-	// body with returns rewritten (positions descending)
+	if namedResults {
+		for i, nm := range resultNames {
+			if nm == "_" {
+				continue
+			}
+			b.WriteString("var " + nm + " " + resTypes[i] + "\n_ = " + nm + "\n")
+		}
+	}
+	// deferred calls that run at a return placed after them, latest first
+	deferredAt := func(pos token.Pos) string {
+		var out []string
+		for i := len(defers) - 1; i >= 0; i-- {
+			if defers[i].Pos() < pos {
+				out = append(out, ctext(defers[i].Call.Pos(), defers[i].Call.End()))
+			}
+		}
+		if len(out) == 0 {
+			return ""
+		}
+		return strings.Join(out, "; ") + "; "
+	}
+	// body with returns rewritten and defer statements removed (positions descending)
 	body := ctext(callee.Body.Lbrace+1, callee.Body.Rbrace)
 	base := off(callee.Body.Lbrace + 1)
-	sort.Slice(returns, func(i, j int) bool { return returns[i].Pos() > returns[j].Pos() })
+	type rep struct {
+		a, b int
+		t    string
+	}
+	var reps []rep
 	for _, r := range returns {
 		var repl string
+		dtxt := deferredAt(r.Pos())
 		switch {
-		case len(r.Results) == 0:
-			repl = "break " + label
+		case len(r.Results) == 0 && nres == 0:
+			repl = "{ " + dtxt + "break " + label + " }"
+		case len(r.Results) == 0 && namedResults:
+			var ns []string
+			for _, nm := range resultNames {
+				if nm == "_" {
+					return nil, nil, "blank named result"
+				}
+				ns = append(ns, nm)
+			}
+			repl = "{ " + resList + " = " + strings.Join(ns, ", ") + "; " + dtxt + "break " + label + " }"
 		case len(r.Results) == nres:
 			var rs []string
 			for _, e := range r.Results {
 				rs = append(rs, ctext(e.Pos(), e.End()))
 			}
-			repl = "{ " + resList + " = " + strings.Join(rs, ", ") + "; break " + label + " }"
+			repl = "{ " + resList + " = " + strings.Join(rs, ", ") + "; " + dtxt + "break " + label + " }"
 		case len(r.Results) == 1 && nres > 1:
-			repl = "{ " + resList + " = " + ctext(r.Results[0].Pos(), r.Results[0].End()) + "; break " + label + " }"
+			repl = "{ " + resList + " = " + ctext(r.Results[0].Pos(), r.Results[0].End()) + "; " + dtxt + "break " + label + " }"
 		default:
 			return nil, nil, "return arity"
 		}
-		a, e := off(r.Pos())-base, off(r.End())-base
-		body = body[:a] + repl + body[e:]
+		reps = append(reps, rep{off(r.Pos()) - base, off(r.End()) - base, repl})
+	}
+	for _, d := range defers {
+		reps = append(reps, rep{off(d.Pos()) - base, off(d.End()) - base, ""})
+	}
+	sort.Slice(reps, func(i, j int) bool { return reps[i].a > reps[j].a })
+	for _, r := range reps {
+		body = body[:r.a] + r.t + body[r.b:]
 	}
 	b.WriteString(body)
-	b.WriteString("\nbreak\n}\n")
+	b.WriteString("\n")
+	if nres == 0 {
+		if d := deferredAt(callee.Body.Rbrace); d != "" {
+			b.WriteString(strings.TrimSuffix(d, "; ") + "\n")
+		}
+	}
+	b.WriteString("break\n}\n")
 	b.WriteString(sPrime + "\n}\n")
-	// a define statement's variables must stay visible after the block: only wrap when the
-	// statement defines nothing that is used later
+	// a define statement's variables must stay visible after the expansion: no outer braces
 	if as, ok := stmt.(*ast.AssignStmt); ok && as.Tok == token.DEFINE {
-		// splice without the outer braces
 		t := b.String()
 		t = strings.TrimPrefix(t, "{\n")
 		t = strings.TrimSuffix(t, "}\n")
 		return &edit{off(stmt.Pos()), off(stmt.End()), t}, imps, ""
-	}
-	if _, ok := stmt.(*ast.RangeStmt); ok {
-		return &edit{off(stmt.Pos()), off(stmt.End()), b.String()}, imps, ""
 	}
 	return &edit{off(stmt.Pos()), off(stmt.End()), b.String()}, imps, ""
 }
@@ -904,23 +1082,31 @@ func NormaliseSwitches(pkgs []*packages.Package, read func(string) ([]byte, erro
 					}
 					src = b
 				}
-				// header: from "switch" to the opening brace
-				head := "if false {"
+				// header: from "switch" to the opening brace disappears (or keeps the init in a block);
+				// the first clause opens the chain, so that a switch in which every clause returns
+				// stays a terminating statement
+				head := ""
 				if sw.Init != nil {
-					head = "{ " + string(src[off(sw.Init.Pos()):off(sw.Init.End())]) + "; if false {"
+					head = "{ " + string(src[off(sw.Init.Pos()):off(sw.Init.End())]) + ";"
 				}
 				edits = append(edits, edit{off(sw.Pos()), off(sw.Body.Lbrace) + 1, head})
-				for _, c := range sw.Body.List {
+				for i, c := range sw.Body.List {
 					cc := c.(*ast.CaseClause)
 					var t string
 					if cc.List == nil {
 						t = "} else {"
+						if i == 0 {
+							t = "{"
+						}
 					} else {
 						var cs []string
 						for _, e := range cc.List {
 							cs = append(cs, "("+string(src[off(e.Pos()):off(e.End())])+")")
 						}
 						t = "} else if " + strings.Join(cs, " || ") + " {"
+						if i == 0 {
+							t = "if " + strings.Join(cs, " || ") + " {"
+						}
 					}
 					edits = append(edits, edit{off(cc.Pos()), off(cc.Colon) + 1, t})
 				}
